@@ -63,7 +63,7 @@ def setup():
 
 def plan(tier, seed):
     L = 5 if tier == "quick" else 6
-    shards = [("automata", L), ("tokens", "N"), ("tokens", "S"), ("tokens", "E"), ("groups", "N"), ("groups", "S"), ("groups", "E")]
+    shards = [("automata", L), ("tokens", "N"), ("tokens", "S"), ("tokens", "E"), ("groups", "N"), ("groups", "S"), ("groups", "E"), ("nearmiss",)]
     return dict(shards=shards, bounds=dict(alphabet_size=len(A.SIGMA), conformance_string_length=L, string_length="unbounded (automata)"), budget_s=900)
 
 
@@ -92,6 +92,9 @@ def check_line(ctx, order, line, why, api=True):
     """Datum-level replay of one string against the real line parsers in captured order."""
     exp = decode(line)
     gk, gd = linelang.claimant("track", line, order)
+    if gk == "<no-api>":
+        ctx.hist["line_parser_api_unavailable(end-to-end replay only)"] += 1
+        return
     got = None if gk is None else (gd if isinstance(gd, tuple) else datum_fields(gk, gd))
     ctx.case(("line", line), sample=lambda: dict(line=line, expected=exp, why=why))
     ctx.evaluations += 1
@@ -141,6 +144,8 @@ def run_shard(shard, ctx):
         _automata(ctx, shard[1])
     elif kind == "tokens":
         _tokens(ctx, shard[1])
+    elif kind == "nearmiss":
+        _nearmiss(ctx)
     else:
         _groups(ctx, shard[1])
 
@@ -188,7 +193,7 @@ def _automata(ctx, L):
             if not iny:
                 gk, gd = linelang.claimant("track", w, order) if api else (None, None)
                 ctx.evaluations += 1
-                if gk is not None and not isinstance(gd, tuple):
+                if gk not in (None, "<no-api>") and not isinstance(gd, tuple):
                     _report_line(ctx, order, w, None, None, gk, datum_fields(gk, gd), "accepts-non-line", "witness outside every L_may")
 
 
@@ -228,7 +233,7 @@ def _token_case(ctx, order, line, k, canonical, e2e_ok):
     if exp is None:
         # non-lines must not produce an event of these kinds: end-to-end (the model predicts a skipped line)
         gk, gd = linelang.claimant("track", line, order)
-        if gk is not None and not isinstance(gd, tuple) and not (k == "E"):
+        if gk not in (None, "<no-api>") and not isinstance(gd, tuple) and not (k == "E"):
             _report_line(ctx, order, line, None, None, gk, datum_fields(gk, gd), "accepts-non-line", "token product (shape the statement excludes)")
     elif e2e_ok:
         check_e2e(ctx, e2e_body(line), "token product")
@@ -247,6 +252,19 @@ def _groups(ctx, kind):
             check_e2e(ctx, padded, "%d padded %s lines at ticks %r" % (n, kind, ticks), sync=sync)
 
 
+NEAR_MISS = ("2 = S 64 5", "2 = S 0 1", "2 = N 8 0", "2 = E two words", "", "garbage", "2 = S 2", "2 = N 0", '2 = E "section a"')
+
+
+def _nearmiss(ctx):
+    """Lines of another shape around decoded lines: they never produce an event of these kinds, and
+    the decoded lines next to them are decoded exactly once."""
+    good = dict(N="2 = N 3 4", S="2 = S 2 7", E="2 = E solo")
+    for k, g in good.items():
+        for nm in NEAR_MISS:
+            for body in ([g, nm], [nm, g], [g, nm, nm], [g, nm, g.replace("2 =", "5 =")], ["0 = N 0 0", g, nm, "9 = E end"], [good["S"], good["E"], nm, g.replace("2 =", "6 =")]):
+                check_e2e(ctx, body, "near-miss line %r next to a %s line" % (nm, k))
+
+
 def replay(case):
     order = linelang.kind_classes("track")
     try:
@@ -255,6 +273,8 @@ def replay(case):
         pass
     if case.get("kind") == "line":
         gk, gd = linelang.claimant("track", case["line"], order)
+        if gk == "<no-api>":
+            return []
         got = None if gk is None else (list(gd) if isinstance(gd, tuple) else datum_fields(gk, gd))
         if case["expected_kind"] is None:
             bad = gk is not None and not (isinstance(got, list) and got[:1] == ["raises"])
